@@ -29,3 +29,32 @@ NOT_CARRIED = ["json.loads / yaml.load are uninterpreted functions of the text (
                "logs_have_year are arbitrary values there; re.search / strptime / datetime arithmetic are uninterpreted total functions",
                "the 330-day year inference is specified as written (the property only says 'with or without year, across a year boundary')",
                "'valid JSON preceded by noise lines beginning with [' (the start-line heuristic is verified as written)"]
+
+
+def bounded(check):
+    """bounded stand-in / native witness search on the real base parsers (also covers what the contracts leave out: json / yaml themselves, the
+    regular expression built from the time format, strptime)"""
+    import json, os, subprocess
+    lvl = 1 if check.tier == "quick" else 2
+    here = os.path.dirname(os.path.dirname(os.path.abspath(__file__)))
+    p = subprocess.run(["/venv/bin/python", os.path.join(here, "bounded", "base_parsers_small_scope.py"), check.repo.root, str(lvl)],
+                       stdout=subprocess.PIPE, stderr=subprocess.PIPE, universal_newlines=True, timeout=3000)
+    line = (p.stdout.strip().splitlines() or ["{}"])[-1]
+    try:
+        info = json.loads(line)
+    except ValueError:
+        info = {"error": (p.stderr or p.stdout)[-400:]}
+    out = dict(name="CommandParser rejects error messages / passes other output unchanged; JSON / YAML base parsers; line search; time-based search",
+               level="bounded",
+               bound="2 phrases x 4 case variants x 4 positions x 3 layouts; 7 JSON documents x 3 noise prefixes + 7 non-documents; 3 + 5 YAML; contents of "
+                     "<= %d lines over 5 shapes x 4 searches x 6 (num, reverse); 3 time formats x 24 orders x 8 continuation patterns x 3 reference times "
+                     "across a year boundary" % (3 if lvl < 2 else 4),
+               result=info, violation=(p.returncode == 1), error=(p.returncode not in (0, 1)))
+    if p.returncode == 1:
+        os.makedirs(os.path.join(here, "replays"), exist_ok=True)
+        path = os.path.join(here, "replays", "C14-bounded.json")
+        json.dump(dict(obligation="bounded:base-parsers", witness=info,
+                       replay_cmd="/venv/bin/python %s %s %d" % (os.path.join(here, "bounded", "base_parsers_small_scope.py"), check.repo.root, lvl)),
+                  open(path, "w"), indent=1)
+        out["replay"] = path
+    return [out]
